@@ -39,7 +39,7 @@ func histReplay(wit json.RawMessage, prop string) []core.Violation {
 }
 
 func c01Scenarios(thorough bool) []histParams {
-	ev := []string{"ans", "ans:1", "ext:1", "ext:2", "ext:12", "reorg:1:2", "reorg:2:3", "back:1", "ping", "tick:250", "settle", "dup", "restart", "drop"}
+	ev := []string{"ans", "ans:1", "ext:1", "ext:2", "ext:12", "reorg:1:2", "reorg:2:3", "back:1", "ping", "tick:250", "settle", "dup", "duph:1", "restart", "drop"}
 	return []histParams{
 		{Prop: "C01", Cfg: WorldCfg{InitialChain: 4, StartHeight: 2, SafeDelayMS: 2000, RemoveMissing: true}, Boot: "synced", Events: ev, Drain: true},
 		{Prop: "C01", Cfg: WorldCfg{InitialChain: 16, StartHeight: 2, SafeDelayMS: 2000, RemoveMissing: true}, Boot: "cold", Events: ev, Drain: true},
